@@ -225,7 +225,7 @@ pub fn shrink_value(v: &Value) -> Vec<Value> {
 }
 
 pub fn run(ctx: &Ctx) -> i32 {
-    let positions = ctx.n(64, 480);
+    let positions = ctx.n(192, 480);
     let exhaustive_limit: u64 = match ctx.tier {
         Tier::Quick => 0,
         Tier::Thorough => 6000,
